@@ -980,3 +980,65 @@ func (t *Term) str(d int) string {
 	}
 	return "(" + name + " " + strings.Join(parts, " ") + ")"
 }
+
+// SMT renders t as a closed SMT-LIB expression (variables by name); used to combine
+// results of different paths (each path has its own term store) in one query.
+func SMT(t *Term, memo map[*Term]string) string {
+	if r, ok := memo[t]; ok {
+		return r
+	}
+	var r string
+	switch t.Op {
+	case OpConst:
+		r = constStr(t)
+	case OpVar:
+		r = t.Name
+	case OpNot:
+		if t.W == 0 {
+			r = "(not " + SMT(t.Args[0], memo) + ")"
+		} else {
+			r = "(bvnot " + SMT(t.Args[0], memo) + ")"
+		}
+	case OpExtract:
+		r = fmt.Sprintf("((_ extract %d %d) %s)", t.Hi, t.Lo, SMT(t.Args[0], memo))
+	case OpZExt:
+		r = fmt.Sprintf("((_ zero_extend %d) %s)", t.W-t.Args[0].W, SMT(t.Args[0], memo))
+	case OpSExt:
+		r = fmt.Sprintf("((_ sign_extend %d) %s)", t.W-t.Args[0].W, SMT(t.Args[0], memo))
+	default:
+		var sb strings.Builder
+		sb.WriteByte('(')
+		sb.WriteString(opNames[t.Op])
+		for _, a := range t.Args {
+			sb.WriteByte(' ')
+			sb.WriteString(SMT(a, memo))
+		}
+		sb.WriteByte(')')
+		r = sb.String()
+	}
+	memo[t] = r
+	return r
+}
+
+// VarDecls lists (declare-const …) lines for the variables occurring in the given terms.
+func VarDecls(ts ...*Term) map[string]string {
+	out := map[string]string{}
+	seen := map[*Term]bool{}
+	var walk func(t *Term)
+	walk = func(t *Term) {
+		if seen[t] {
+			return
+		}
+		seen[t] = true
+		if t.Op == OpVar {
+			out[t.Name] = "(declare-const " + t.Name + " " + sortStr(t.W) + ")"
+		}
+		for _, a := range t.Args {
+			walk(a)
+		}
+	}
+	for _, t := range ts {
+		walk(t)
+	}
+	return out
+}
